@@ -70,7 +70,7 @@ func TestC12_P_FileFaults(t *testing.T) {
 	rapid.Check(t, func(t *rapid.T) {
 		var fc *fileCase
 		if rapid.IntRange(0, 5).Draw(t, "handmade") == 0 {
-			fc = genHandFileDAG(t) // chunks may be empty: a missing empty block still has to surface as an error
+			fc = genHandFileDAG(t, false) // chunks may be empty: a missing empty block still has to surface as an error
 		} else {
 			fc = genFileDAG(t, 2, 120)
 		}
@@ -306,6 +306,12 @@ func TestC12_P_HamtFaults(t *testing.T) {
 			if nerr != wantErrs {
 				t.Fatalf("C12 hamt [%s] iteration reported %d errors, want one per missing shard met = %d", desc, nerr, wantErrs)
 			}
+			// an operation that needs every shard (preload reification) must report the load error as well
+			var perr error
+			must(t, "preload under fault", func() { _, perr = loadReified(ls, root, "unixfs-preload") })
+			if perr == nil {
+				t.Fatalf("C12 hamt [%s] unixfs-preload reification succeeded although a shard cannot be loaded", desc)
+			}
 			ev.Case(fmt.Sprintf("f=%d d=%d s=%s %s", fanout, tree.Depth(), bucket(len(shards)), class), tree.Depth() >= 3 || len(missing) >= 2, "fault:"+class, fmt.Sprintf("depth:%s", bucket(tree.Depth())))
 		}
 		// an entry below each shard (first value link found under it)
@@ -386,5 +392,115 @@ func TestC12_P_HamtFaults(t *testing.T) {
 			ev.Case(fmt.Sprintf("f=%d d=%d s=%s transient", fanout, tree.Depth(), bucket(len(shards))), true, "fault:transient-kth-load")
 		}
 		ev.Sample(map[string]any{"fanout": fanout, "entries": len(names), "depth": tree.Depth(), "child_shards": len(shards), "fault_runs": 3*len(shards) + 1})
+	})
+}
+
+const c12HistRule = "case = file DAG + one reader + a history of 2..5 (Seek via a drawn whence, ReadFull) steps forwards and backwards; the fault-free run gives the number N of block loads; then the history is replayed on a fresh node once per k in 1..N with the k-th load failing (transient), and once per non-root block with that block unavailable; " +
+	"oracle = every step either returns exactly the bytes of the model range (and Seek the model offset) or fails with the injected load error after delivering a prefix of them; never wrong bytes, never silent truncation; the history stops at the first error; " +
+	"non-trivial = >= 3 steps on a multi-level file; every faulted replay counts; distinct by (writer, depth, steps, fault class)"
+
+// TestC12_P_HistoryFaults: load failures must surface also when they hit in the middle of a Seek/Read history on a used reader
+// (for example during a forward seek that skips by reading).
+func TestC12_P_HistoryFaults(t *testing.T) {
+	ev := newEvid(t, c12HistRule)
+	rapid.Check(t, func(t *rapid.T) {
+		fc := genFileDAG(t, 8, 200)
+		if len(fc.Tree.All()) < 3 {
+			ev.Case("tiny", false, "tiny")
+			return
+		}
+		type step struct {
+			a, b   int64
+			whence int
+		}
+		var steps []step
+		for i := rapid.IntRange(2, 5).Draw(t, "steps"); i > 0; i-- {
+			a, b := genRange(t, fc)
+			if b-a > 30 {
+				b = a + int64(rapid.IntRange(1, 30).Draw(t, "shorten"))
+			}
+			steps = append(steps, step{a, b, rapid.IntRange(0, 2).Draw(t, "whence")})
+		}
+		n := int64(len(fc.Data))
+		// replay returns the number of loads and a description of the first deviation, if any
+		replay := func() (string, error) {
+			ls := fc.St.LinkSystem()
+			rn, err := loadReified(ls, fc.Root, "unixfs")
+			if err != nil {
+				return "", fmt.Errorf("harness: %w", err)
+			}
+			rs, err := rn.(datamodel.LargeBytesNode).AsLargeBytes()
+			if err != nil {
+				return "", err
+			}
+			pos := int64(0)
+			for i, sp := range steps {
+				off := sp.a
+				switch sp.whence {
+				case io.SeekCurrent:
+					off = sp.a - pos
+				case io.SeekEnd:
+					off = sp.a - n
+				}
+				got, err := rs.Seek(off, sp.whence)
+				if err != nil {
+					if isInjected(err) {
+						return "", nil // the fault surfaced: fine, stop
+					}
+					return fmt.Sprintf("step %d: Seek(%d,%d) failed with %v", i, off, sp.whence, err), nil
+				}
+				if got != sp.a {
+					return fmt.Sprintf("step %d: Seek(%d,%d) = %d, want %d", i, off, sp.whence, got, sp.a), nil
+				}
+				buf := make([]byte, sp.b-sp.a)
+				k, err := io.ReadFull(rs, buf)
+				if !bytes.Equal(buf[:k], fc.Data[sp.a:sp.a+int64(k)]) {
+					return fmt.Sprintf("step %d: read at %d returned %d WRONG bytes %x (want %x), err=%v", i, sp.a, k, buf[:k], fc.Data[sp.a:sp.a+int64(k)], err), nil
+				}
+				if err != nil {
+					if isInjected(err) {
+						return "", nil
+					}
+					return fmt.Sprintf("step %d: read [%d,%d) delivered %d bytes then %v (no load error reported)", i, sp.a, sp.b, k, err), nil
+				}
+				pos = sp.b
+			}
+			return "", nil
+		}
+		fc.St.ResetLogs()
+		if dev, err := replay(); err != nil || dev != "" {
+			t.Fatalf("C12 [%s] fault-free history: %v %s", fc.Desc, err, dev)
+		}
+		loads := len(fc.St.ReadLog())
+		for k := 2; k <= loads; k++ { // load #1 is the harness' own root load
+			fc.St.ResetLogs()
+			fc.St.FailReadAt = k
+			var dev string
+			var err error
+			must(t, "history under transient fault", func() { dev, err = replay() })
+			fc.St.FailReadAt = 0
+			if err != nil {
+				t.Fatal(err)
+			}
+			if dev != "" {
+				t.Fatalf("C12 [%s] history %v with load #%d of %d failing: %s", fc.Desc, steps, k, loads, dev)
+			}
+			ev.Case(fmt.Sprintf("%s d=%d steps=%d transient", fc.Writer, fc.Tree.Depth(), len(steps)), true, "fault:transient")
+		}
+		for _, c := range fc.Tree.PreOrder()[1:] {
+			fc.St.Missing = map[cid.Cid]bool{c: true}
+			var dev string
+			var err error
+			must(t, "history with a missing block", func() { dev, err = replay() })
+			fc.St.Missing = map[cid.Cid]bool{}
+			if err != nil {
+				t.Fatal(err)
+			}
+			if dev != "" {
+				t.Fatalf("C12 [%s] history %v with block %s unavailable: %s", fc.Desc, steps, c, dev)
+			}
+			ev.Case(fmt.Sprintf("%s d=%d steps=%d missing", fc.Writer, fc.Tree.Depth(), len(steps)), true, "fault:missing-block")
+		}
+		ev.Sample(map[string]any{"file": fc.Desc, "steps": len(steps), "loads": loads})
 	})
 }
